@@ -13,7 +13,9 @@
 (*         "clamp" the hardware has no range above index Cap: it stores       *)
 (*                 Min(i, Cap) and returns what it stored (legal: the return  *)
 (*                 value of a write method is the value really set)           *)
-(*         "raise" above Cap it raises an error and stores nothing            *)
+(*         "raise" above Cap it raises a SECoP error and stores nothing       *)
+(*         "crash" above Cap it raises something that is no SECoP error       *)
+(*                 (ValueError, OSError, ...) and stores nothing              *)
 (* idx   : cached index parameter          hw : index held by the hardware    *)
 (* req   : the index last requested from the driver's write_<idx> (-1: none)  *)
 (* val   : what the float parameter shows (module attribute, update stream,   *)
@@ -23,7 +25,7 @@ EXTENDS Integers, FiniteSets, TLC
 
 CONSTANTS Tables,   \* subset of TableNames
           Shapes,   \* subset of {"rw", "w"}
-          Modes,    \* subset of {"echo", "none", "clamp", "raise"}
+          Modes,    \* subset of {"echo", "none", "clamp", "raise", "crash"}
           Xs        \* ticks offered to a write of the float parameter
 
 Tab(name) ==
@@ -55,7 +57,7 @@ FInit == /\ tab \in Tables /\ shape \in Shapes /\ mode \in Modes
 
 (* the driver is asked for index i: the module ends up on the index the hardware reports *)
 Lands(i) == IF mode = "clamp" /\ i > Cap THEN Cap ELSE i
-Fails(i) == mode = "raise" /\ i > Cap
+Fails(i) == mode \in {"raise", "crash"} /\ i > Cap
 Ask(i) == /\ req' = i
           /\ IF Fails(i) THEN UNCHANGED <<idx, hw, val>> /\ last' = "refused"
                           ELSE idx' = Lands(i) /\ hw' = Lands(i) /\ val' = T[Lands(i)] /\ last' = "ok"
